@@ -5,4 +5,4 @@ cd "$(dirname "$0")/.."
 B=$(bin/build.sh off all | tail -1)
 STABLE=$(python3 -c "import json;print('|'.join('^'+t.split('::')[0]+'\$' for t in json.load(open('/root/.vp/BASELINE.json'))['stable_pass']))")
 cd "$B"
-ctest -j8 --timeout 900 -R "$STABLE" --output-junit "$B/baseline.junit.xml" | tail -15
+ctest -j8 --timeout 900 --repeat until-pass:3 -R "$STABLE" --output-junit "$B/baseline.junit.xml" | tail -15
